@@ -95,7 +95,13 @@ def worker_init():
 
 # ------------------------------------------------------------------ running the implementation
 
+# partial matching (PartialMatcher engine): its own two "modes", judged by the oracle only (the engine is not modelled)
+from ..gen.c05_hist import PARTIAL_MODES      # noqa: E402  ({"P": implicit mode + partial=True, "Q": default mode + partial=True})
+
+
 def _vcase(case, v, strategy):
+    for k, cfg in PARTIAL_MODES.items():
+        K.MODES.setdefault(k, cfg)
     return dict(tpl=dict(rsmi=v["rsmi"], core=bool(case["tpl"].get("core", True))), sub=v["sub"], invert=bool(case.get("invert", False)),
                 strategy=strategy, mode=case.get("mode", "E"))
 
@@ -202,6 +208,8 @@ def impl(case):
     from synkit.Graph.Hyrogen._misc import h_to_implicit, has_XH
     pre = case.get("pre")
     if pre is not None and ("error" in pre or "outside" in pre):
+        return ["SKIP"]
+    if case.get("mode") in PARTIAL_MODES:
         return ["SKIP"]
     mode = case.get("mode", "E")
     out = []
@@ -311,7 +319,7 @@ def coq_case(case):
     pre = case.get("pre")
     if pre is None:
         pre = prepare(case)["pre"]
-    if "error" in pre or "outside" in pre or pre.get("big"):
+    if "error" in pre or "outside" in pre or pre.get("big") or case.get("mode") in PARTIAL_MODES:
         return None
     mode = case.get("mode", "E")
     vs = K.cl(["(%s, %s)" % (_c_host(h), _c_tpl(t)) for h, t in [pre["vs"][i] for i in _model_variants(case)]])
@@ -722,5 +730,12 @@ def gen_cases(tier, rng):
                 q = Gn.foreign_pair(p)
                 if q:
                     pairs.append(q)
+    # the partial-matching option on the designated symmetric rules (first substrate, centre template): oracle only
+    for p in list(pairs):
+        if p.get("kind") == "hand" and p["tpl"].get("core") and p["sub"] == p.get("first_sub") and any(k in p["name"] for k in SEQ_RULES):
+            q = dict(p)
+            q["mode"] = "P" if p["mode"] == "I" else "Q"
+            q["name"] = p["name"] + ":partial"
+            pairs.append(q)
     cases = [_mk_case(p, rng, k_sub, k_tpl, cap) for p in pairs]
     return prepare_all(cases)
